@@ -426,7 +426,7 @@ func (x *Exec) execInstr(f *Frame, b *ssa.BasicBlock, ins ssa.Instruction) {
 		x.execRange(f, ins)
 	case *ssa.RunDefers:
 		if len(f.deferred) > 0 {
-			x.runDefers(f)
+			x.runDeferred(f)
 		}
 	case *ssa.Defer:
 		x.execDefer(f, i)
@@ -456,18 +456,8 @@ func (x *Exec) execInstr(f *Frame, b *ssa.BasicBlock, ins ssa.Instruction) {
 }
 
 func (x *Exec) execPanic(f *Frame, pos token.Pos, what string) {
-	// explicit panic: must be unreachable unless the contract allows it (panics_if)
-	if f.top && x.con != nil && len(x.con.PanicsIf) > 0 {
-		env := x.newEnv(x.paramVars(), x.cur.clone(), x.entry)
-		for _, c := range x.con.PanicsIf {
-			x.obligeSpec(f, "panic-allowed", c, x.cur.reach, env, "")
-		}
-		for _, c := range x.con.XEnsures {
-			x.obligeSpec(f, "xpost", c, x.cur.reach, env, "")
-		}
-		return
-	}
-	x.obligeGround(f, "panic", x.safetyTags(), x.cur.reach, tFalse, what+" reachable", pos)
+	f.panics = append(f.panics, panicState{st: x.cur.clone(), pos: pos, what: what})
+	x.cur.reach = tFalse
 }
 
 // backEdges emits inv-pres obligations for successors that are loop headers reached by a back edge.
@@ -904,6 +894,7 @@ func (x *Exec) execLookup(f *Frame, i *ssa.Lookup) {
 	val := Ite(has, Select(MapVal(mv), k), x.tm.Zero(mt.Elem()))
 	val = x.b.Def("lk", val)
 	x.assume(x.cur.reach, x.typeFact(val, mt.Elem(), x.cur.Alloc(x)))
+	x.szMember(mv, k)
 	if i.CommaOk {
 		f.regs[i] = Val{Tup: []Val{{T: val}, {T: x.b.Def("lk_ok", has)}}}
 		return
